@@ -156,7 +156,7 @@ def ins : (h : Nat) → Tree h → Clu → Nat → InsRes (Tree h)
         let sp := splitNode P h r.node r.next
         let ents' := t.ents.set i (sp.c1, sp.t1) ++ [(sp.c2, sp.t2)]
         let cache' := t.cache.set i sp.c1.cent ++ [sp.c2.cent]
-        let ev := match sp.ev with | some e => some e | none => r.ev
+        let ev := sp.ev.or r.ev
         ⟨({ cap := t.cap, ents := ents', cache := cache' } : InnerN (Tree h)),
           decide (t.cap < ents'.length), ev, sp.next⟩
       else
